@@ -59,17 +59,19 @@ def c06(chk, tier):
 
 def c01(chk, tier):
     chk.explanation = "Static: R-ARRAY (interval analysis of every fixed-array index/copy), R-TYPEWRITE, R-LOOKBEHIND, R-INIT, R-STALE, R-SCANIDX, R-SCANSTOP, R-OWN (nopool configuration), R-HEAPIDX, R-UAF, R-HASHKEY, R-GOTOINIT."
-    rules_mem.r_array(P(), chk)
-    rules_mem.r_lookbehind(P(), chk)
-    rules_mem.r_init(P(), chk)
-    rules_mem.r_stale(P(), chk)
-    rules_mem.r_scanidx(P(), chk)
-    rules_mem.r_scanstop(P(), chk)
+    # thorough: the same rules once more on the -DDISABLE_OBJECT_POOL configuration (token.c differs, frees are real)
+    for cfg in (["default", "nopool"] if tier == "thorough" else ["default"]):
+        rules_mem.r_array(P(cfg), chk)
+        rules_mem.r_lookbehind(P(cfg), chk)
+        rules_mem.r_init(P(cfg), chk)
+        rules_mem.r_stale(P(cfg), chk)
+        rules_mem.r_scanidx(P(cfg), chk)
+        rules_mem.r_scanstop(P(cfg), chk)
+        rules_mem.r_heapidx(P(cfg), chk)
+        rules_mem.r_uaf(P(cfg), chk)
+        rules_mem.r_hashkey(P(cfg), chk)
+        rules_mem.r_gotoinit(P(cfg), chk)
     rules_mem.r_own(P("nopool"), chk)
-    rules_mem.r_heapidx(P(), chk)
-    rules_mem.r_uaf(P(), chk)
-    rules_mem.r_hashkey(P(), chk)
-    rules_mem.r_gotoinit(P(), chk)
 
 
 def c19(chk, tier):
